@@ -265,6 +265,17 @@ def kmer_lemmas(F, rep, tystr, which=None, slice_cap=32):
         rep.violated("L-k", tag, "cannot evaluate K of %s: %s" % (tystr, e), witness={"kind": "anchor-missing"})
         return
     K, W = kt.K, kt.W
+    # the shipped aliases state their length in their public name (`Kmer30` is the type of 30-letter strings): every other lemma derives K
+    # from k() and so cannot see a marker type that answers with its neighbour's length (wave 10, C10-m18)
+    for kk in getattr(F, "kmer_types", []):
+        m_ = re.match(r"^(?:\w+::)*Kmer(\d+)$", kk.get("alias") or "")
+        if kk.get("ty") == tystr and m_:
+            if int(m_.group(1)) == K:
+                rep.holds("L-k", tag + "/alias", "%s::k() = %d" % (kk["alias"], K))
+            else:
+                rep.violated("L-k", tag + "/alias", "the public k-mer type %s (= %s) reports k() = %d: it is not the type of %s-letter strings its name "
+                             "states (from_ascii/from_bytes want %d letters, to_string renders %d)" % (kk["alias"], tystr, K, m_.group(1), K, K),
+                             witness={"kind": "alias-length", "alias": kk["alias"], "k": K})
     if 2 * K > W:
         rep.violated("L-k", tag, "%s: 2K=%d exceeds storage width %d" % (tystr, 2 * K, W))
         return
